@@ -800,6 +800,21 @@ func (c10MacroPatcher) Exit(node *ast.Node) {
 	}
 }
 
+// a visitor whose replacement CONTAINS new nodes another visitor cares about: AddM(x) => Add(x, M), Tag(x) => x + MS
+type c10AddMPatcher struct{}
+
+func (c10AddMPatcher) Enter(*ast.Node) {}
+func (c10AddMPatcher) Exit(node *ast.Node) {
+	if f, ok := (*node).(*ast.FunctionNode); ok && len(f.Arguments) == 1 {
+		switch f.Name {
+		case "AddM":
+			ast.Patch(node, &ast.FunctionNode{Name: "Add", Arguments: []ast.Node{f.Arguments[0], &ast.IdentifierNode{Value: "M"}}})
+		case "Tag":
+			ast.Patch(node, &ast.BinaryNode{Operator: "+", Left: f.Arguments[0], Right: &ast.IdentifierNode{Value: "MS"}})
+		}
+	}
+}
+
 // replaces the unknown identifier ZZ by the integer 0
 type c10ZZPatcher struct{}
 
@@ -1054,6 +1069,42 @@ func c10EndToEnd(rep *Report) {
 		if gerr != nil || !reflect.DeepEqual(got, want) {
 			rep.fail(Failure{Key: "C10-e2e-patch", What: "a user patch that uses one node in two slots does not survive the optimizer: " + c.position, Input: input,
 				Want: fmt.Sprintf("%v (= unoptimized)", want), Got: fmt.Sprintf("%v (error %v)", got, gerr), Replay: string(rp)})
+		}
+	}
+	// SEVERAL user visitors in one Compile: each one walks the whole tree in option order, so a later visitor also meets the nodes an
+	// earlier one created (AddM(x) => Add(x, M), then M := 3), and an earlier one does not meet what a later one creates
+	for _, c := range []struct{ position, src, bothOrders, reversed string }{
+		{"node created by an earlier visitor, root", "AddM(5)", "Add(5, 3)", "Add(5, M)"},
+		{"node created by an earlier visitor, argument", "Add(AddM(I), 1)", "Add(Add(I, 3), 1)", "Add(Add(I, M), 1)"},
+		{"node created by an earlier visitor, closure body", "map(A[0:2], {AddM(#)})", "map(A[0:2], {Add(#, 3)})", "map(A[0:2], {Add(#, M)})"},
+		{"node created by an earlier visitor, string operand", `Tag("a") + "!"`, `"a" + "patched" + "!"`, `"a" + MS + "!"`},
+		{"node created by an earlier visitor, index", "A[AddM(0)]", "A[Add(0, 3)]", "A[Add(0, M)]"},
+		{"node created by an earlier visitor next to an original one", "AddM(M)", "Add(3, 3)", "Add(3, M)"},
+		{"node created by an earlier visitor, nested", "AddM(AddM(1))", "Add(Add(1, 3), 3)", "Add(Add(1, M), M)"},
+	} {
+		for _, order := range []string{"AddM-then-M", "M-then-AddM"} {
+			rep.Evaluations++
+			rep.hist("e2e two visitors: " + c.position)
+			ops := []expr.Option{expr.Patch(c10AddMPatcher{}), expr.Patch(&c10MarkPatcher{})}
+			equiv := c.bothOrders
+			if order == "M-then-AddM" {
+				ops = []expr.Option{expr.Patch(&c10MarkPatcher{}), expr.Patch(c10AddMPatcher{})}
+				equiv = c.reversed
+			}
+			for _, opt := range []bool{false, true} {
+				got, gerr := c10RunSrc(c.src, append(ops, expr.Optimize(opt))...)
+				want, werr := c10RunSrc(equiv, expr.Optimize(opt))
+				input := map[string]interface{}{"e2e": c.src, "visitors": order + " (AddM(x) => Add(x, M), Tag(x) => x + MS; M := 3, MS := \"patched\")", "optimize": opt, "position": c.position}
+				rp, _ := json.Marshal(input)
+				if werr != nil {
+					rep.fail(Failure{Key: "C10-e2e-baseline", What: "the substituted source does not compile and run", Input: input, Want: "a result", Got: werr.Error(), Replay: string(rp)})
+					continue
+				}
+				if gerr != nil || !reflect.DeepEqual(got, want) {
+					rep.fail(Failure{Key: "C10-e2e-patch", What: "two user visitors in one Compile: every visitor walks the whole tree in option order (" + c.position + ")", Input: input,
+						Want: fmt.Sprintf("%v (= %s)", want, equiv), Got: fmt.Sprintf("%v (error %v)", got, gerr), Replay: string(rp)})
+				}
+			}
 		}
 	}
 	// operator overloading TOGETHER with a user visitor that repairs an expression which does not type-check before
